@@ -367,6 +367,60 @@ func streamC05(env *runEnv) {
 				}
 			}
 		}
+		// the same through the legacy transport with two users whose four requests interleave
+		// (bob OUT, alice OUT, alice IN, bob IN): each tunnel runs under its own confirmed name
+		if m.local && !m.openid {
+			hA := map[string]string{"Authorization": be("1", users["1"])}
+			hB := map[string]string{"Authorization": be("2", users["2"])}
+			idA, idB := fmt.Sprintf("{c05-il-a-%d-%d}", env.seed, si), fmt.Sprintf("{c05-il-b-%d-%d}", env.seed, si)
+			outB, outBrB, stB, errB := legacyOpenOut(g, idB, hB)
+			outA, outBrA, stA, errA := legacyOpenOut(g, idA, hA)
+			obsA, obsB := fmt.Sprintf("out=%d", stA), fmt.Sprintf("out=%d", stB)
+			if errA == nil && errB == nil && stA == 200 && stB == 200 {
+				inA, inBrA, st2A, e2A := legacyOpenIn(g, idA, hA)
+				inB, inBrB, st2B, e2B := legacyOpenIn(g, idB, hB)
+				obsA, obsB = fmt.Sprintf("in=%d", st2A), fmt.Sprintf("in=%d", st2B)
+				if e2A == nil && e2B == nil && st2A == 200 && st2B == 200 {
+					run := func(l *legacyConn) string {
+						l.in.Write([]byte("preamble-to-be-drained"))
+						time.Sleep(60 * time.Millisecond)
+						obs := "no-answer"
+						for _, p := range [][]byte{
+							packet(ptHandshake, handshakeBody(1, 0, 0, 0)),
+							packet(ptTunnelCreate, tunnelCreateBody(0, "", false)),
+							packet(ptTunnelAuth, tunnelAuthBody("pc")),
+							packet(ptChannelCreate, channelCreateBody("127.0.0.1", 3389)),
+						} {
+							l.send(p)
+							time.Sleep(15 * time.Millisecond)
+							if mm, e := l.recv(8 * time.Second); e == nil && len(mm) >= 12 && int(mm[0])|int(mm[1])<<8 == 9 {
+								obs = "channel=" + strconv.FormatUint(uint64(binary.LittleEndian.Uint32(mm[8:12])), 10)
+							}
+						}
+						return obs
+					}
+					lA := &legacyConn{out: outA, outBr: outBrA, in: inA, inBr: inBrA}
+					lB := &legacyConn{out: outB, outBr: outBrB, in: inB, inBr: inBrB}
+					obsB = run(lB)
+					obsA = run(lA)
+				}
+				if inA != nil {
+					inA.Close()
+				}
+				if inB != nil {
+					inB.Close()
+				}
+			}
+			if outA != nil {
+				outA.Close()
+			}
+			if outB != nil {
+				outB.Close()
+			}
+			env.count("c05.authuser-interleaved")
+			env.emit("authuser", hx([]byte("2")), hx([]byte("127.0.0.1:3389")), obsB)
+			env.emit("authuser", hx([]byte("1")), hx([]byte("127.0.0.1:3389")), obsA)
+		}
 		// liveness after all hostile inputs
 		if c, err := dialGateway(g); err == nil {
 			st, _, _ := c.do("GET", nil, false)
